@@ -322,14 +322,14 @@ Definition attr_layer_clean (c : caseElem) : bool :=
   | _, _ => false
   end.
 
-(** names under which the failures of the body's elements are located (named fields only) *)
+(** names under which the failures of the body's elements are located (named fields, and variants) *)
 Definition sub_names (c : caseElem) : list (option string) :=
   match ce_input c with
   | EIDerive d =>
       match din_body d with
       | DStruct StNamed fs => map fe_ident fs
       | DStruct _ fs => map (fun _ => None) fs
-      | DEnum vs => map (fun _ => None) vs
+      | DEnum vs => map (fun ve => Some (ve_ident ve)) vs
       | DUnion => []
       end
   | EIVariant ve =>
